@@ -1,11 +1,17 @@
 #!/bin/bash
 # Re-run the quick checks recorded in each behaviour-preserving change's meta.json against
 # that change (scratch worktree + FUNTRACKS_SRC; /repo is never patched). One line per change;
-# every check must stay silent.
+# every check must stay silent.  Optional arguments: only these checks (e.g. C12 C13 C15).
+only=" $* "
 cd /verif
 for d in equivalent/*/; do
   id=$(basename $d)
   props=$(/venv/bin/python -c "import json,sys; print(' '.join(json.load(open('$d/meta.json'))['quick_checks_run']))")
+  if [ "$only" != "  " ]; then
+    sel=""; for p in $props; do case "$only" in *" $p "*) sel="$sel $p";; esac; done
+    props=$sel
+    [ -z "$props" ] && continue
+  fi
   res=$(tools/mutant.sh $d/patch.diff $props 2>&1 | tr '\n' ';' | cut -c1-400)
   echo "$id [$props] $res"
 done
